@@ -395,6 +395,65 @@ def boundary_defaults_into(rnd, doc):
     return n[0]
 
 
+# --- name collisions in every position pattern ----------------------------------
+# deterministic product (fixed world).  Every case must be rejected at add or compile.
+COLL_PAIRS = [
+    ("star", "read", "read*"), ("case", "read", "Read"), ("sep", "foo-bar", "foo_bar"), ("camel", "fooBar", "foo_bar"),
+    ("space", "a b", "a_b"), ("digit", "1a", "x1a"), ("quote", "it's", "its"), ("xsub-ok", "a", "a_"), ("dot", "v1.0", "v1_0"),
+    ("upper", "ABC", "abc"), ("trail", "read-", "read"), ("plus", "+1", "plus1"),
+]
+COLL_TRIPLES = [("xsub-third", "a", "a_", "A"), ("three-same", "r", "R", "r*"), ("xsub-all", "b", "b_", "b__")]
+FILLERS = ["write", "exec", "list"]
+
+
+def coll_lists():
+    """(tag, list of names) with the colliding names at every relative position"""
+    out = []
+    for tag, x, y in COLL_PAIRS:
+        for gap in range(0, 4):
+            for lead in (0, 1):
+                for tail in (0, 1):
+                    for order in ((x, y), (y, x)):
+                        names = FILLERS[:lead] + [order[0]] + [f + str(gap) for f in FILLERS[:gap]] + [order[1]] + (["zz"] if tail else [])
+                        if len(set(names)) == len(names):
+                            out.append(("%s/gap%d/lead%d/tail%d/%s" % (tag, gap, lead, tail, "xy" if order[0] == x else "yx"), names))
+    for tag, x, y, z in COLL_TRIPLES:
+        import itertools
+        for perm in itertools.permutations((x, y, z)):
+            for gap in (0, 1, 2):
+                names = [perm[0]] + FILLERS[:gap] + [perm[1]] + FILLERS[gap:2 * gap] + [perm[2]]
+                if len(set(names)) == len(names):
+                    out.append(("%s/gap%d/%s" % (tag, gap, "".join(str((x, y, z).index(q)) for q in perm)), names))
+    return out
+
+
+def coll_schemas():
+    out = []
+    for tag, names in coll_lists():
+        out.append(("enum:" + tag, {"type": "string", "enum": names}))
+        out.append(("ext:" + tag, {"oneOf": [{"type": "object", "properties": {n: {"type": "integer"}}, "required": [n],
+                                             "additionalProperties": False} for n in names]}))
+        out.append(("int:" + tag, {"oneOf": [{"type": "object", "properties": {"tag": {"type": "string", "enum": [n]}, "v": {"type": "integer"}},
+                                             "required": ["tag"]} for n in names]}))
+        out.append(("props:" + tag, {"type": "object", "properties": {n: {"type": "integer"} for n in names}}))
+    # the synthesised flattened `extra` against properties sorting before / after it
+    for tag, props in (("only", ["extra"]), ("before", ["alpha", "extra"]), ("after", ["extra", "zone"]), ("both", ["alpha", "extra", "zone"]),
+                       ("after2", ["extra", "f", "zone"]), ("upper", ["Extra", "zone"]), ("dash", ["extra-", "zone"]), ("far", ["extra", "m", "n", "o", "p"])):
+        for vt, val in (("typed", {"type": "integer"}), ("any", {}), ("str", {"type": "string"})):
+            out.append(("extra:%s/%s" % (tag, vt), {"type": "object", "properties": {n: {"type": "string"} for n in props},
+                                                     "additionalProperties": val}))
+            out.append(("extra-variant:%s/%s" % (tag, vt),
+                        {"oneOf": [{"type": "object", "properties": dict({n: {"type": "string"} for n in props}, t={"type": "string", "enum": ["a"]}),
+                                    "required": ["t"], "additionalProperties": val},
+                                   {"type": "object", "properties": {"t": {"type": "string", "enum": ["b"]}}, "required": ["t"]}]}))
+    return out
+
+
+def stream_collisions_single():
+    return [mk("coll:%s" % tag, "collisions", {}, [{"op": "root", "doc": {"definitions": {"T": sch}}}], False, ["collisions", "coll:" + tag.split(":")[0]])
+            for tag, sch in coll_schemas()]
+
+
 # --- small-scope enumeration -------------------------------------------------
 S_, I_, B_, N_, NUL_ = ({"type": t} for t in ("string", "integer", "boolean", "number", "null"))
 SS_LEAVES = [("str", S_), ("int", I_), ("bool", B_), ("num", N_), ("null", NUL_), ("any", {}),
@@ -1319,9 +1378,25 @@ def run(ctx):
                                 [{"op": "root", "doc": {"definitions": defs}}], False, ["pack"]))
     ctx.log("boundary defaults: %d combinations, %d accepted, %d packs" % (len(bd_cases), len(accb), len(bd_packs)))
 
-    fixed_all = fixed + pack_cases + mp_pack_cases + bd_pack_cases
+    # name collisions in every position: alone through the converter (rejected is fine), accepted ones packed
+    cl_cases = stream_collisions_single()
+    cl_gen = gen_all(cl_cases, isolate=False)
+    cl_kind = [ingest_outcome(g) for g in cl_gen]
+    CPACK = 45
+    accc = [k for k in range(len(cl_cases)) if cl_kind[k][0] == "generated"]
+    cl_packs = [accc[k:k + CPACK] for k in range(0, len(accc), CPACK)]
+    cl_pack_cases = [mk("collpack:%d" % pi, "collisions-pack", {"struct_builder": pi % 2 == 1},
+                        [{"op": "root", "doc": {"definitions": {"T%d" % n: cl_cases[k]["steps"][0]["doc"]["definitions"]["T"]
+                                                                for n, k in enumerate(grp)}}}], False, ["pack"])
+                     for pi, grp in enumerate(cl_packs)]
+    ctx.log("collisions: %d cases, %d accepted, %d rejected at add, %d packs" % (
+        len(cl_cases), len(accc), len([k for k in cl_kind if k[0] == "rejected"]), len(cl_packs)))
+    ctx.coverage["collision_cases_other_outcomes"] = [cl_cases[k]["id"] for k in range(len(cl_cases))
+                                                      if cl_kind[k][0] not in ("generated", "rejected")][:20]
+
+    fixed_all = fixed + pack_cases + mp_pack_cases + bd_pack_cases + cl_pack_cases
     gens_fixed = gen_all(fixed, isolate=True) + gen_all(pack_cases, isolate=False) + gen_all(mp_pack_cases, isolate=False) + \
-        gen_all(bd_pack_cases, isolate=False)
+        gen_all(bd_pack_cases, isolate=False) + gen_all(cl_pack_cases, isolate=False)
     gens_rand = gen_all(rand, isolate=False)
 
     def build(name, cases, gens):
@@ -1395,6 +1470,23 @@ def run(ctx):
                             "codes": sorted({e[0] or "?" for e in wm.compile_errors.get(j, [])}),
                             "msgs": [e[1] for e in wm.compile_errors.get(j, [])]})
     results = [r for r in results if not (r["case"]["stream"] == "maps-pack" and r["kind"] != "ok")]
+    cl_fail = []
+    for r in results:
+        if r["case"]["stream"] == "collisions-pack" and r["kind"] != "ok":
+            cl_fail += cl_packs[int(r["case"]["id"].split(":")[1])]
+    if cl_fail:
+        sub = [cl_cases[j] for j in cl_fail]
+        sg = [cl_gen[j] for j in cl_fail]
+        wc = build("c01-collsplit-" + ctx.tier, sub, sg)
+        for j, (c, g) in enumerate(zip(sub, sg)):
+            kind = "compile-error" if wc.status[j] == "compile-error" else "ok"
+            results.append({"case": c, "g": g, "kind": kind, "detail": "",
+                            "codes": sorted({e[0] or "?" for e in wc.compile_errors.get(j, [])}),
+                            "msgs": [e[1] for e in wc.compile_errors.get(j, [])]})
+    results = [r for r in results if not (r["case"]["stream"] == "collisions-pack" and r["kind"] != "ok")]
+    for k, c in enumerate(cl_cases):
+        if cl_kind[k][0] != "generated":
+            results.append({"case": c, "g": cl_gen[k], "kind": cl_kind[k][0], "detail": cl_kind[k][1], "codes": [], "msgs": []})
     bd_fail = []
     for r in results:
         if r["case"]["stream"] == "boundary-pack" and r["kind"] != "ok":
@@ -1422,6 +1514,16 @@ def run(ctx):
     for r in results:
         if r["case"]["stream"] != "hostile" and r["kind"] != "ok":
             ctx.log("non-ok:", r["case"]["id"], r["kind"], r["codes"], r["detail"][:120].replace("\n", " "))
+    if MUTATE == "impl-unique-adjacent-only":
+        # emulate util.rs unique() comparing neighbours only: a non-adjacent variant collision is accepted and the enum
+        # has two variants of one name (the recorded answer of a real duplicate-item module stands in for E0428)
+        for r in results:
+            if r["case"]["id"] == "hostile:coll-variants-nonadjacent" and r["kind"] == "ok":
+                # today: X substitution gives Read / Write / ReadX; with the broken guard the first attempt is kept
+                r["kind"], r["codes"], r["msgs"], r["detail"] = "compile-error", ["E0428"], ["the name `Read` is defined multiple times"], ""
+            if r["case"]["id"] in ("hostile:coll-variants-nonadjacent-2", "hostile:coll-extra-after") and r["kind"] == "rejected":
+                r["kind"], r["codes"], r["msgs"], r["detail"] = "compile-error", ["E0428"], ["defined multiple times"], ""
+                r["g"] = dict(r["g"], dump={"entries": {}, "settings": {}}, render={"r": "ok", "scan": {"items": [], "impls": []}})
     if MUTATE == "impl-u64-default-unrenderable":
         # emulate output_value losing integer defaults above i64::MAX while validate_value still accepts them
         for r in results:
@@ -1562,9 +1664,9 @@ def run(ctx):
     if coq_ok:
         try:
             gi = [n for n, r in enumerate(results) if r["kind"] in ("ok", "compile-error", "render-panic", "unparsable")
-                  and "dump" in r["g"] and r["case"]["stream"] not in ("smallscope-pack", "maps-pack", "boundary-pack")]
+                  and "dump" in r["g"] and r["case"]["stream"] not in ("smallscope-pack", "maps-pack", "boundary-pack", "collisions-pack")]
             # packs: evaluated as modules too (they are what rustc judged)
-            gi += [n for n, r in enumerate(results) if r["case"]["stream"] in ("smallscope-pack", "maps-pack", "boundary-pack") and r["kind"] == "ok"]
+            gi += [n for n, r in enumerate(results) if r["case"]["stream"] in ("smallscope-pack", "maps-pack", "boundary-pack", "collisions-pack") and r["kind"] == "ok"]
             # siblings recompile shared models (Value.v, SettingsModel.v) while this check runs: bring the
             # dependants up to date again right before they are loaded
             vlib.coq_make(["theories/Props/C01.vo"])
@@ -1604,8 +1706,10 @@ def run(ctx):
                not [v for v in viol if "rustc" in v["what"]], json.dumps(viol[:2])[:1500])
     ctx.oblige("supported fragment (grammar, histories, fixtures, small scope without allOf/anyOf) is never rejected",
                not [v for v in viol if "supported" in v["what"]], json.dumps([v for v in viol if "supported" in v["what"]][:2])[:1500])
-    ctx.oblige("the world is not degenerate (>= 60% of the cases compile)", n_ok * 10 >= len(results) * 6,
-               "%d of %d" % (n_ok, len(results)))
+    n_den = len([r for r in results if r["case"]["stream"] != "collisions"])     # collisions: rejection is the expected outcome
+    n_ok_den = len([r for r in results if r["kind"] == "ok" and r["case"]["stream"] != "collisions"])
+    ctx.oblige("the world is not degenerate (>= 60% of the cases outside the collision stream compile)", n_ok_den * 10 >= n_den * 6,
+               "%d of %d" % (n_ok_den, n_den))
     listed = {f["id"] for f in ctx.findings_for()}
     ctx.oblige("every attributed class is listed in findings/C01.json", set(found) <= listed, str(sorted(set(found) - listed)))
     missing = sorted(listed - set(found))
